@@ -1465,6 +1465,7 @@ def translate_spec(spec, src_root):
                        if isinstance(h, dict) and not h["lean"].startswith("Py.")
                        and h["lean"] not in spec.get("extra_params", {})} - {spec["lean"]})
         header = header.replace("import FinamModel.PyPrelude\n", "import FinamModel.PyPrelude\n"
+                                + "".join(f"import {m}\n" for m in spec.get("imports", []))
                                 + "".join(f"import FinamModel.Translated.{d}\n" for d in deps))
         return header + text + "\n\nend Finam.Tr\n", None
     except (Untranslatable, SyntaxError, OSError, KeyError, IndexError, TypeError, AttributeError) as e:
@@ -1595,6 +1596,13 @@ def driver_source(specs, status, src_root):
                          '(fun w c => match w.1 with | (_, u) :: rest => if rest.isEmpty then Except.error Err.other '
                          'else Except.ok (u, (rest, w.2 ++ [c])) | [] => Except.error Err.other) '
                          '(fun _ _ => Except.ok ()) (fromJ (argAt args 3))).map (fun w => (w.2, w.1.length)))')
+            continue
+        if spec.get("group") == "Canonical":
+            # arrays travel as (shape, elements in C order)
+            imports.append(f"import FinamModel.Translated.{spec['lean']}")
+            cases.append(f'  | "{spec["lean"]}" => toJ ((Tr.{spec["lean"]} (α := Int) (fromJ (argAt args 0)) (fromJ (argAt args 1)) '
+                         '(fromJ (argAt args 2)) (let p : List Nat × List Int := fromJ (argAt args 3); Finam.Arr.ofFlat Finam.Order.C p.1 p.2 0))'
+                         '.map (fun r => (r.shape, r.flat Finam.Order.C)))')
             continue
         if spec.get("group") == "GridMemo":
             imports.append(f"import FinamModel.Translated.{spec['lean']}")
